@@ -1368,6 +1368,8 @@ def main3r():
 if __name__ == "__main__":
     main()
     main2()
+    import src2v3_block  # work package blockT: coq/gen/Src3b.v (ArchiveFileBlock::from, fails closed per item)
+    src2v3_block.main()
     import src2v3_reader  # work package readerT: coq/gen/Src3d.v (fails closed per item)
     src2v3_reader.main()
     main3()
@@ -1388,3 +1390,5 @@ if __name__ == "__main__":
     src2v3_comp.main()
     import src2v3_crypto  # work package cryptoT: coq/gen/Src3g.v (aesgcm.rs, ecc.rs; fails closed per item)
     src2v3_crypto.main()
+    import src2v3_header  # work package blockT/B: coq/gen/Src3h.v (ArchiveHeader::{from, dump}, bincode reader from the struct definitions; fails closed per item)
+    src2v3_header.main()
